@@ -23,9 +23,14 @@
        goes round, the accumulator of each kind, findIf's early stop, exitWith in the body ending the whole loop.
        Lazy && / and / || / or with a code block on the right are constructors of the same relation (ZLazySkip, ZLazyEnter).
        The for loop (from / to / step, the loop variable read back from the frame) is covered too (C02_vm_runs_for,
-       C02_ref_runs_for).
-       NOT covered by the simulation: while, switch,
-       exitWith inside an operand, breakOut, try / catch / throw, waitUntil, nil operands - for these the
+       C02_ref_runs_for).  So is while {..} do {..} (C02_vm_runs_while, C02_ref_runs_while): the loop frame runs the
+       condition's and the body's instructions in turn, in one scope that is emptied before each; exitWith in either
+       ends the loop; premises: no cap on loop rounds, a boolean condition, non-empty condition and body that begin
+       with a push or a variable read.  Blocks are stated to start at a statement boundary (Fresh: the scope's part of
+       the operand stack is empty, or holds the nil the calling operator left there).
+       NOT covered by the simulation: switch,
+       exitWith inside an operand, breakOut, try / catch / throw, waitUntil, nil operands, a while loop with an empty
+       body or a non-boolean condition - for these the
        per-construct theorems below and the program-level differential are the evidence;
      - the compiler emits the post-order of the source (code blocks, binary operators, arrays);
      - per-construct characterisations of the VM model: which block is entered, with which bindings, how often, and when a
@@ -425,7 +430,7 @@ Qed.
    back from the frame when the body has run out (zfor var to st s x first body acc s' = the rounds from the value x on) *)
 Theorem C02_ref_runs_for : forall var to st s x first body acc s', zfor var to st s x first body acc s' ->
   exists f0 k0, forall f, f0 <= f -> forall k, k0 <= k -> for_loop_f f var to st body k s x first = (ONormal acc, s').
-Proof. exact (proj2 (proj2 (proj2 (proj2 (proj2 ref_runs_z))))). Qed.
+Proof. exact (proj1 (proj2 (proj2 (proj2 (proj2 (proj2 ref_runs_z)))))). Qed.
 Print Assumptions C02_ref_runs_for.
 Theorem C02_vm_runs_for : forall var to st s x first body acc s', zfor var to st s x first body acc s' ->
   forall r c f fc frest below,
@@ -434,7 +439,7 @@ Theorem C02_vm_runs_for : forall var to st s x first body acc s', zfor var to st
     leaf_first body -> f_ns f = f_ns fc -> f_base fc <= length below ->
     exists r' c' fc' rest', Steps r r' /\ r' <> r /\ Mach s' r' c' fc' rest' /\ c_values c' = cv acc :: below /\
       kept fc fc' /\ Forall2 kept frest rest'.
-Proof. exact (proj2 (proj2 (proj2 (proj2 (proj2 vm_runs_z))))). Qed.
+Proof. exact (proj1 (proj2 (proj2 (proj2 (proj2 (proj2 vm_runs_z)))))). Qed.
 Print Assumptions C02_vm_runs_for.
 (* a derivation: t = 0; for "_i" from 1 to 3 do { t = t + _i }  leaves t = 6 *)
 Definition ex_for : expr :=
@@ -457,5 +462,45 @@ Proof.
                         |reflexivity|reflexivity|].
       eapply ZForLast; [eapply ZBLast; eapply ZSAssign; [discriminate|eapply ZPure; eapply PBin; [eapply PVarG; reflexivity|eapply PVarL; reflexivity|reflexivity]|split; discriminate]
                        |reflexivity|reflexivity]. }
+  reflexivity.
+Qed.
+
+(* ---- while {..} do {..}: the loop frame runs the condition's and the body's instructions in turn (the behaviour exchanges them),
+   in one scope that is emptied before each; the loop yields nil, or the value an exitWith in the condition or in the body
+   leaves it with.  Premises: no cap on loop rounds (part of Mach), the condition yields a boolean, condition and body are
+   not empty and begin with a push or a variable read (the pass of execute_do that exchanges the instructions also executes
+   the first of the new ones). *)
+Theorem C02_ref_runs_while : forall cond body s first v s', zwhile cond body s first v s' ->
+  exists f0 k0, forall f, f0 <= f -> forall k, k0 <= k -> forall n, first = Nat.eqb n 0 ->
+    while_loop_f f cond body k s n = (ONormal v, s').
+Proof. exact (proj2 (proj2 (proj2 (proj2 (proj2 (proj2 ref_runs_z)))))). Qed.
+Print Assumptions C02_ref_runs_while.
+Theorem C02_vm_runs_while : forall cond body s first v s', zwhile cond body s first v s' ->
+  forall r c f fc frest below loops,
+    AtM (enter s []) (if first then RNil else RNone) r c f (fc :: frest) below -> Fresh c below ->
+    f_code f = compile_block cond -> f_pos f = 0 ->
+    f_exit f = Some (BWhile loops WCond (compile_block cond) (compile_block body)) -> f_die f = false ->
+    leaf_first cond -> leaf_first body -> f_ns f = f_ns fc -> f_base fc <= length below ->
+    exists r' c' fc' rest', Steps r r' /\ r' <> r /\ Mach s' r' c' fc' rest' /\ c_values c' = cv v :: below /\
+      kept fc fc' /\ Forall2 kept frest rest'.
+Proof. exact (proj2 (proj2 (proj2 (proj2 (proj2 (proj2 vm_runs_z)))))). Qed.
+Print Assumptions C02_vm_runs_while.
+(* a derivation: i = 0; while { i < 3 } do { i = i + 1 }  goes round three times, leaves i = 3 and yields nil *)
+Definition ex_while : expr :=
+  EBinary "do" (EUnary "while" (ECode [SExpr (EBinary "<" (EVar "i") (ENum 3))]))
+               (ECode [SAssign "i" (EBinary "+" (EVar "i") (ENum 1))]).
+Example while_inhabited : exists s0 s', glob_of s0 "i" = Some (RNum 0) /\ zev s0 ex_while RNil s' /\ glob_of s' "i" = Some (RNum 3).
+Proof.
+  exists (rns_set init_state default_ns "i" (RNum 0)). eexists. split; [reflexivity|]. split.
+  { eapply ZWhileLoop; [reflexivity|eapply ZWhileVal; [reflexivity|intros ? ?; discriminate|eapply ZCode]|eapply ZCode| | |].
+    - eexists _, _. split; [reflexivity|]. right. eexists. reflexivity.
+    - eexists _, _. split; [reflexivity|]. right. eexists. reflexivity.
+    - eapply ZWhileRound; [eapply ZBLast; eapply ZSExprV; eapply ZPure; eapply PBin; [eapply PVarG; reflexivity|eapply PNum|reflexivity]
+                          |eapply ZBLast; eapply ZSAssign; [discriminate|eapply ZPure; eapply PBin; [eapply PVarG; reflexivity|eapply PNum|reflexivity]|split; discriminate]|].
+      eapply ZWhileRound; [eapply ZBLast; eapply ZSExprV; eapply ZPure; eapply PBin; [eapply PVarG; reflexivity|eapply PNum|reflexivity]
+                          |eapply ZBLast; eapply ZSAssign; [discriminate|eapply ZPure; eapply PBin; [eapply PVarG; reflexivity|eapply PNum|reflexivity]|split; discriminate]|].
+      eapply ZWhileRound; [eapply ZBLast; eapply ZSExprV; eapply ZPure; eapply PBin; [eapply PVarG; reflexivity|eapply PNum|reflexivity]
+                          |eapply ZBLast; eapply ZSAssign; [discriminate|eapply ZPure; eapply PBin; [eapply PVarG; reflexivity|eapply PNum|reflexivity]|split; discriminate]|].
+      eapply ZWhileStop. eapply ZBLast; eapply ZSExprV; eapply ZPure; eapply PBin; [eapply PVarG; reflexivity|eapply PNum|reflexivity]. }
   reflexivity.
 Qed.
